@@ -950,3 +950,46 @@ func TestKnownDeclaredLength(t *testing.T) {
 	P.SetExtra("declared_length_alloc_mib", alloc>>20)
 	P.KnownFinding(sig, reproduced)
 }
+
+// ---------- native coverage-guided fuzzing (thorough tier) ----------
+
+var fuzzByteTargets = []string{"token.FromSealed", "token.FromSealedReader", "token.FromDagCbor", "token.FromDagJson", "delegation.FromSealed", "invocation.FromSealed",
+	"container.FromCbor", "container.FromCborBase64", "container.FromCar", "container.FromCarBase64", "container.FromCarReader"}
+
+var fuzzBytesDef = h.Define(P, "fuzzbytes", func(t *rapid.T) Case { return Case{} }, run)
+var fuzzStringsDef = h.Define(P, "fuzzstrings", func(t *rapid.T) Case { return Case{} }, run)
+
+// FuzzBytes drives every byte-level entry point with the crash / allocation
+// oracle inside the target. The first byte selects the entry point. Seeds:
+// the valid artefacts and the hostile constants.
+func FuzzBytes(f *testing.F) {
+	for i := range fuzzByteTargets {
+		for _, name := range artNames {
+			f.Add(append([]byte{byte(i)}, artefacts[name]...))
+		}
+		for _, hb := range hostileBytes {
+			f.Add(append([]byte{byte(i)}, hb...))
+		}
+	}
+	def := fuzzBytesDef
+	f.Fuzz(func(t *testing.T, in []byte) {
+		if len(in) == 0 {
+			return
+		}
+		cs := Case{Target: fuzzByteTargets[int(in[0])%len(fuzzByteTargets)], Fam: "native-fuzz", Bytes: in[1:]}
+		def.One(t, cs)
+	})
+}
+
+// FuzzStrings does the same for the text entry points.
+func FuzzStrings(f *testing.F) {
+	for i := range stringTargets {
+		for _, s := range []string{".", ".a[0]?", `.["x"][1:2]`, "/foo/bar", "did:key:z6MkvXVukSeKyCBswifXNEkAvfTpRHAk1tDKna4tZYgrBDWZ", `[["==",".a",1],["like",".s","x*"],["all",".l",[">",".",0]]]`, `[["not",["and",[["or",[]]]]]]`} {
+			f.Add(byte(i), s)
+		}
+	}
+	def := fuzzStringsDef
+	f.Fuzz(func(t *testing.T, sel byte, s string) {
+		def.One(t, Case{Target: stringTargets[int(sel)%len(stringTargets)], Fam: "native-fuzz", Str: s})
+	})
+}
